@@ -249,11 +249,13 @@ pub fn str_to_dec(lit: &str) -> Result<(i128, isize), ParseDecimalError> {
     if lit.is_empty() {
         return Err(ParseDecimalError::Invalid);
     }
+    let n_leading_zeroes = lit.len();
     lit.skip_leading_zeroes();
     if lit.is_empty() {
         // There must have been atleast one zero. Ignore sign.
         return Ok((0, 0));
     }
+    let n_leading_zeroes = n_leading_zeroes - lit.len();
     let mut coeff = 0_u128;
     let mut overflow = false;
     // Parse integral digits.
@@ -267,7 +269,7 @@ pub fn str_to_dec(lit: &str) -> Result<(i128, isize), ParseDecimalError> {
             n_frac_digits = lit.accum_coeff(&mut coeff, &mut overflow);
         }
     }
-    let n_digits = n_int_digits + n_frac_digits;
+    let n_digits = n_leading_zeroes + n_int_digits + n_frac_digits;
     if n_digits == 0 {
         return Err(ParseDecimalError::Invalid);
     }
@@ -314,6 +316,10 @@ pub fn str_to_dec(lit: &str) -> Result<(i128, isize), ParseDecimalError> {
         return Err(ParseDecimalError::Invalid);
     }
     exp -= n_frac_digits as isize;
+    if coeff == 0 && exp > 0 {
+        // zero times any power of ten is zero
+        exp = 0;
+    }
     if -exp > crate::MAX_N_FRAC_DIGITS as isize {
         return Err(ParseDecimalError::FracDigitLimitExceeded);
     }
